@@ -154,6 +154,7 @@ def extract(repo):
          _caller(_method(sec, "Section", "copy_section", "nixio/section.py").body, copy, "Section", "Section.copy_section")),
     ]
     # the four public callers of _copy_objects test the kind of the source first and call nothing else before it
+    public = []
     for meth, cont, kind in (("create_data_array", "data_arrays", "DataArray"), ("create_data_frame", "data_frames", "DataFrame"),
                              ("create_tag", "tags", "Tag"), ("create_multi_tag", "multi_tags", "MultiTag")):
         br = _body(_copy_branch(_method(blk, "Block", meth, "nixio/block.py"), "Block." + meth))
@@ -163,6 +164,9 @@ def extract(repo):
                 shape[1] != _E("objname = self._copy_objects(copy_from, '%s', keep_copy_id, name)" % cont) or \
                 not isinstance(br[2], ast.Return):
             raise ExtractError("Block.%s: the copy branch is no longer kind test / _copy_objects / return: %s" % (meth, shape))
+        public.append(("block" + "".join(w.capitalize() for w in meth.split("_")) + "Copy", "Block.%s(copy_from=...)" % meth,
+                       [".guard .objKind"] + fns[0][2]))
+    fns = fns + public
 
     def lst(xs):
         return "[" + ", ".join(xs) + "]"
